@@ -86,6 +86,17 @@ theorem flagOnly_live (ps : PathSt) (m m' : Meta) (hm : ps.md = some m) (fs : Fl
   obtain ⟨vm0, hv0, hd0⟩ := fs.live x vm' hv' hd'
   exact ⟨m, vm0, hm, hv0, hd0, hb'⟩
 
+theorem settingsShape_live (ps ps' : PathSt) (r : Resp) (sh : SettingsShape ps ps' r) (x : Nat) (d : Data)
+    (hl : live ps' x d) : live ps x d := by
+  rcases sh with e | ⟨m', e, sv, _⟩
+  · rwa [e] at hl
+  · rw [e] at hl
+    obtain ⟨m2, vm', hm2, hv', hd', hb'⟩ := hl
+    cases hm2
+    rw [sv.vers] at hv'
+    obtain ⟨m0, hm0, hv0⟩ := metaOr_versions ps x vm' hv'
+    exact ⟨m0, vm', hm0, hv0, hd', hb'⟩
+
 /-- where live data comes from, one request at a time: it was live before, or this request wrote it -/
 theorem stepF_live (tx : Bool) (fault : Option Nat) (s : State) (op : Op) (p : String) (x : Nat) (d : Data)
     (hwf : WF s) (hl : live ((stepF tx fault s op).1.paths p) x d) :
@@ -189,24 +200,21 @@ theorem stepF_live (tx : Bool) (fault : Option Nat) (s : State) (op : Op) (p : S
           · cases hb'
           · exact ⟨m, vm0, hm, hv0, hd0, hb'⟩
       · exact other q _ hq hl
-  | metaWrite q mx cr dva =>
+  | metaWrite q a =>
     left
     simp only [stepF] at hl
     by_cases hq : q = p
     · subst hq
       rw [setPath_same] at hl
-      unfold metaWrite at hl
-      split at hl
-      · exact hl
-      · obtain ⟨m2, vm', hm2, hv', hd', hb'⟩ := hl
-        simp only [Option.some.injEq] at hm2
-        subst hm2
-        cases hmd : (s.paths q).md with
-        | none => cases mx <;> cases cr <;> cases dva <;> simp [hmd, freshMeta] at hv'
-        | some m0 =>
-          have hv0 : m0.versions x = some vm' := by
-            cases mx <;> cases cr <;> cases dva <;> simpa [hmd] using hv'
-          exact ⟨m0, vm', hmd, hv0, hd', hb'⟩
+      exact settingsShape_live _ _ _ (metaWrite_shape s.cfg (s.paths q) a) x d hl
+    · exact other q _ hq hl
+  | metaPatch q a =>
+    left
+    simp only [stepF] at hl
+    by_cases hq : q = p
+    · subst hq
+      rw [setPath_same] at hl
+      exact settingsShape_live _ _ _ (metaPatch_shape s.cfg (s.paths q) a) x d hl
     · exact other q _ hq hl
   | metaRead q => exact Or.inl hl
   | metaDelete q =>
@@ -259,6 +267,16 @@ theorem flagOnly_obsEq (a b : PathSt) (m m' : Meta) (h : ObsEq a b) (hm : a.md =
   intro m2 x hm2 hx
   cases hm2
   exact h.2 m x hm (by rw [← fs.isSome x]; exact hx)
+
+theorem settings_obsEq (a b : PathSt) (m' : Meta) (h : ObsEq a b) (sv : SameVersions (metaOr a) m') :
+    ObsEq { a with md := some m' } { b with md := some m' } := by
+  refine ⟨rfl, ?_⟩
+  intro m2 x hm2 hx
+  cases hm2
+  rw [sv.vers] at hx
+  obtain ⟨vm, hv⟩ := Option.isSome_iff_exists.mp hx
+  obtain ⟨m0, hm0, hv0⟩ := metaOr_versions a x vm hv
+  exact h.2 m0 x hm0 (by rw [hv0]; rfl)
 
 theorem commitWrite_none (ps : PathSt) (m : Meta) (d : Data) (del : Del) (c : Nat) (tx : Bool) (base : Nat) :
     ∃ ps', commitWrite ps m d del c tx none base = (ps', .wrote (m.current + 1) del false, false) ∧
@@ -413,24 +431,48 @@ theorem step_obsEq (s t : State) (op : Op) (h : StateObsEq s t) (hwf : WF s) :
         split
         · rfl
         · exact hp.2 m x hm (by rw [← (foldl_flagStep _ markDestroyed_flagStep vs m).isSome x]; exact hx)
-  | metaWrite p mx cr dva =>
-    simp only [step, stepF, ← h.1]
+  | metaWrite p a =>
     have hp := h.2 p
-    unfold metaWrite
+    have hmd : (t.paths p).md = (s.paths p).md := hp.1.symm
+    have hresp : (metaWrite t.cfg (t.paths p) a).2 = (metaWrite s.cfg (s.paths p) a).2 := by
+      simp only [metaWrite, ← h.1, hmd]
+      repeat' split
+      all_goals rfl
+    simp only [step, stepF]
+    refine ⟨hresp.symm, setPath_obsEq s t p _ _ h ?_⟩
+    simp only [metaWrite, ← h.1, hmd]
     split
-    · exact ⟨rfl, setPath_obsEq s t p _ _ h hp⟩
-    · refine ⟨rfl, setPath_obsEq s t p _ _ h ?_⟩
-      simp only [← hp.1]
-      refine ⟨rfl, ?_⟩
-      intro m2 x hm2 hx
-      simp only [Option.some.injEq] at hm2
-      subst hm2
-      cases hmd : (s.paths p).md with
-      | none => cases mx <;> cases cr <;> cases dva <;> simp [hmd, freshMeta] at hx
-      | some m0 =>
-        have hx0 : (m0.versions x).isSome = true := by
-          cases mx <;> cases cr <;> cases dva <;> simpa [hmd] using hx
-        exact hp.2 m0 x hmd hx0
+    · exact hp
+    · cases hm : (s.paths p).md with
+      | none =>
+        simp only
+        split
+        · exact hp
+        · exact settings_obsEq _ _ _ hp ⟨by rw [metaOr_none _ hm]; rfl, by rw [metaOr_none _ hm]; rfl, by rw [metaOr_none _ hm]; rfl⟩
+      | some m =>
+        simp only
+        split
+        · exact hp
+        · exact settings_obsEq _ _ _ hp ⟨by rw [metaOr_some _ m hm]; rfl, by rw [metaOr_some _ m hm]; rfl, by rw [metaOr_some _ m hm]; rfl⟩
+  | metaPatch p a =>
+    have hp := h.2 p
+    have hmd : (t.paths p).md = (s.paths p).md := hp.1.symm
+    have hresp : (metaPatch t.cfg (t.paths p) a).2 = (metaPatch s.cfg (s.paths p) a).2 := by
+      simp only [metaPatch, ← h.1, hmd]
+      repeat' split
+      all_goals rfl
+    simp only [step, stepF]
+    refine ⟨hresp.symm, setPath_obsEq s t p _ _ h ?_⟩
+    simp only [metaPatch, ← h.1, hmd]
+    split
+    · exact hp
+    · cases hm : (s.paths p).md with
+      | none => exact hp
+      | some m =>
+        simp only
+        split
+        · exact hp
+        · exact settings_obsEq _ _ _ hp ⟨by rw [metaOr_some _ m hm]; rfl, by rw [metaOr_some _ m hm]; rfl, by rw [metaOr_some _ m hm]; rfl⟩
   | metaRead p => exact ⟨metaRead_obsEq _ _ (h.2 p), h⟩
   | metaDelete p =>
     refine ⟨rfl, setPath_obsEq s t p _ _ h ?_⟩
@@ -507,10 +549,16 @@ theorem stepF_err_obsEq (tx : Bool) (fault : Option Nat) (s : State) (op : Op) (
     split
     · exact StateObsEq.refl s
     · rename_i hne; simp [hne] at h
-  | metaWrite p mx cr dva =>
-    simp only [stepF, metaWrite] at h
-    repeat' split at h
-    all_goals cases h
+  | metaWrite p a =>
+    simp only [stepF] at h ⊢
+    rcases metaWrite_shape s.cfg (s.paths p) a with e | ⟨m', _, _, hr⟩
+    · rw [e]; exact same p
+    · rcases hr with hr | hr <;> rw [hr] at h <;> cases h
+  | metaPatch p a =>
+    simp only [stepF] at h ⊢
+    rcases metaPatch_shape s.cfg (s.paths p) a with e | ⟨m', _, _, hr⟩
+    · rw [e]; exact same p
+    · rcases hr with hr | hr <;> rw [hr] at h <;> cases h
   | metaRead p => exact StateObsEq.refl s
   | metaDelete p => simp [stepF] at h
   | confWrite mx cr dva => simp [stepF] at h
@@ -587,8 +635,12 @@ theorem stepF_ok_obsEq (tx : Bool) (fault : Option Nat) (s : State) (op : Op) (h
   | deleteV q vs => simp only [stepF] at h; split at h <;> cases h
   | undelete q vs => simp only [stepF] at h; split at h <;> cases h
   | destroy q vs => simp only [stepF] at h; split at h <;> cases h
-  | metaWrite q mx cr dva =>
+  | metaWrite q a =>
     simp only [stepF, metaWrite] at h
+    repeat' split at h
+    all_goals cases h
+  | metaPatch q a =>
+    simp only [stepF, metaPatch] at h
     repeat' split at h
     all_goals cases h
   | metaRead q => simp only [stepF, metaRead] at h; split at h <;> cases h
